@@ -499,7 +499,8 @@ func c17CaseInsts(tier string) []CaseInst {
 				"\tvar exp %s\n\tfor i := 0; i < len(snap); i++ {\n\t\tfor j := 0; j < len(snap[i]); j++ {\n\t\t\texp = append(exp, snap[i][j])\n\t\t}\n\t}\n"+
 				"\tok := len(out) == len(exp)\n\tfor i := 0; i < len(out) && i < len(exp); i++ {\n\t\tif !%s {\n\t\t\tok = false\n\t\t}\n\t}\n\tvx.Assert(ok, \"concatenation in order\")\n"+
 				"\tvx.Assert(%s(ll, snap), \"inputs not modified\")\n",
-				nd(LL, "ll"), g.RefClone(LL), id, Slice(E).Expr(), eqExpr(E, "out[i]", "exp[i]"), g.RefEq(LL))
+				// three inner lists: a wrong write offset only shows from the third one on (seed C17-d)
+				ndo(LL, "ll", "len=3,cap=1,str=1"), g.RefClone(LL), id, Slice(E).Expr(), eqExpr(E, "out[i]", "exp[i]"), g.RefEq(LL))
 			return []HarnessSrc{h("VX_C17_join_"+id, "join", body)}
 		}}
 	}
@@ -507,7 +508,7 @@ func c17CaseInsts(tier string) []CaseInst {
 	out = append(out, CaseInst{ID: "M07", Desc: "join []string", Gen: func(g *Gen, id string) []HarnessSrc {
 		body := fmt.Sprintf("\tss := %s\n\tsnap := append([]string(nil), ss...)\n\tout := deriveJoinS%s(ss)\n\texp := \"\"\n\tfor i := 0; i < len(snap); i++ {\n\t\texp += snap[i]\n\t}\n"+
 			"\tvx.Assert(out == exp, \"concatenation of the strings\")\n\tok := len(ss) == len(snap)\n\tfor i := 0; i < len(ss) && i < len(snap); i++ {\n\t\tif ss[i] != snap[i] {\n\t\t\tok = false\n\t\t}\n\t}\n\tvx.Assert(ok, \"inputs not modified\")\n",
-			nd(Slice(S), "ss"), id)
+			ndo(Slice(S), "ss", "len=3,cap=1,str=2"), id)
 		return []HarnessSrc{h("VX_C17_joinstr_"+id, "joinstr", body)}
 	}})
 	return out
